@@ -1,7 +1,7 @@
 (* C13 correspondence: observations of the real code (harness/db/verif_c13_test.go) re-evaluated on the model
    with vm_compute.  Go iterates maps in random order, so sets / association lists are compared as sets and
    period lists as sorted lists; the rows of a request are compared exactly, in order. *)
-From SG Require Export Base.Prelude C20.SeqIdGen C20.SeqId C13.Revocation C13.Feed C13.Client C13.DocHist.
+From SG Require Export Base.Prelude C20.SeqIdGen C20.SeqId C13.Revocation C13.Feed C13.Client C13.DocHist C13.GrantSys C13.Sys.
 Open Scope N_scope.
 
 Inductive case :=
@@ -12,7 +12,9 @@ Inductive case :=
 | CWasIn (ents : list docent) (u : user_st) (roles : list role_st) (c since : N) (out : bool)
 | CDocHist (active new_ : list N) (seq : N) (cs h cs' h' : list docent)
 | CPull (snap : snapshot) (trig seq limit : N) (rows : list row)
-| CClient (before_ : client) (rows : list row) (after : client).
+| CClient (before_ : client) (rows : list row) (after : client)
+| CInval (pre s post : N)
+| CSys (ops : list sop) (obs : list (snapshot * list row)).
 
 Definition pair_eqb (a b : N * N) : bool := (fst a =? fst b) && (snd a =? snd b).
 
@@ -53,6 +55,26 @@ Definition row_eqb (a b : row) : bool :=
   && Bool.eqb (w_deleted a) (w_deleted b) && Bool.eqb (w_revoked a) (w_revoked b)
   && Bool.eqb (w_allremoved a) (w_allremoved b) && Bool.eqb (w_principal a) (w_principal b).
 
+(* snapshots up to the order of association lists *)
+Definition role_eqb (a b : role_st) : bool :=
+  (r_id a =? r_id b) && Bool.eqb (r_deleted a) (r_deleted b) && tset_equiv (r_chans a) (r_chans b) && hist_equiv (r_hist a) (r_hist b).
+Definition roles_equiv (a b : list role_st) : bool :=
+  Nat.eqb (length a) (length b)
+  && forallb (fun x => match find_role (r_id x) b with Some y => role_eqb x y | None => false end) a.
+Definition user_eqb (a b : user_st) : bool :=
+  (u_seq a =? u_seq b) && tset_equiv (u_chans a) (u_chans b) && hist_equiv (u_hist a) (u_hist b)
+  && tset_equiv (u_roles a) (u_roles b) && hist_equiv (u_role_hist a) (u_role_hist b).
+Definition log_eqb (a b : logentry) : bool :=
+  (le_seq a =? le_seq b) && (le_doc a =? le_doc b) && (le_rev a =? le_rev b)
+  && Bool.eqb (le_removed a) (le_removed b) && Bool.eqb (le_deleted a) (le_deleted b).
+Definition doc_eqb (a b : docinfo) : bool :=
+  (d_id a =? d_id b) && list_eqb docent_eqb (dsort (d_hist a)) (dsort (d_hist b))
+  && option_eqb (list_eqb N.eqb) (d_active a) (d_active b).
+Definition snap_equiv (a b : snapshot) : bool :=
+  (s_cached a =? s_cached b) && user_eqb (s_user a) (s_user b) && roles_equiv (s_roles a) (s_roles b)
+  && list_eqb (fun x y => (fst x =? fst y) && list_eqb log_eqb (snd x) (snd y)) (s_logs a) (s_logs b)
+  && list_eqb doc_eqb (s_docs a) (s_docs b).
+
 Definition check (c : case) : bool :=
   match c with
   | CCalc inval lost new_ h out => hist_equiv (calc_history inval lost new_ h) out
@@ -65,6 +87,11 @@ Definition check (c : case) : bool :=
       list_eqb docent_eqb (dsort mcs) (dsort cs') && list_eqb docent_eqb (dsort mh) (dsort h')
   | CPull snap trig seq limit rows => list_eqb row_eqb (pull snap (mk trig 0 seq) limit) rows
   | CClient c0 rows c1 => list_eqb pair_eqb (apply_rows c0 rows) c1
+  (* a write at sequence s either leaves the principal alone or invalidates it; the first invalidation sticks *)
+  | CSys ops obs =>
+      list_eqb (fun x y => snap_equiv (fst x) (fst y) && list_eqb row_eqb (snd x) (snd y))
+               (map (fun o => (o_snap o, o_rows o)) (trace ops)) obs
+  | CInval pre s post => (post =? pre) || (post =? p_inval (invalidate s (mkPrinc [] pre [])))
   end.
 
 Definition mismatches (cs : list case) : list N := failing check cs.
